@@ -122,6 +122,27 @@ PROFILES = {
                                       ("downcast", "Error"): "AnyErr.downcastOwn", ("downcast", "StdError"): "AnyErr.downcastStd"},
                 "into": "fromStd", "to_string": "AnyErr.text",
                 "chain_methods": {"execute_contract": "chain.execute_contract", "migrate_contract": "chain.migrate_contract"}},
+    # `CheckGenerics` (C15): which of the user's generic parameters a message type uses. `visit_path` is the one visit the macro overrides;
+    # the loop that hands the segments back to syn's walker (`for el in &p.segments { self.visit_path_segment(el) }`) is the default
+    # recursion and is left to the walker, which here is a parameter delivering the paths of a node in visiting order
+    "checkgen": {"src": ("sylvia-derive", "src", "parser", "check_generics.rs"), "out": "CheckGenFns.lean", "ns": "Extracted.CheckGenFns",
+                 "imports": ["Sylvia.Model.RustSem"], "opens": "open RustSem",
+                 "vars": "variable {Generic Path : Type} [DecidableEq Generic] [DecidableEq Path]", "str": "String",
+                 "only": ["CheckGenerics.new", "CheckGenerics.used", "CheckGenerics.used_unused"], "only_enums": [], "only_structs": ["CheckGenerics"],
+                 "trait_only": ["CheckGenerics.visit_path"], "tparams": ["Generic"], "type_vars": ["Generic"],
+                 "extern_paths": {"syn::Path": "Path"},
+                 "leading_binders": "(getPath : Generic → Option Path)", "leading_args": "getPath",
+                 "extern_methods": {"get_path": "getPath"}, "skip_visit_recursion": True},
+    # `filter_wheres` (C15): which of the user's where-predicates a message type keeps; the generics checker is a parameter here
+    # (instantiated with the regenerated `CheckGenerics` in Thm/GenericsFn.lean)
+    "wheres": {"src": ("sylvia-derive", "src", "utils.rs"), "out": "WheresFns.lean", "ns": "Extracted.WheresFns",
+               "imports": ["Sylvia.Model.RustSem"], "opens": "open RustSem",
+               "vars": "variable {Generic WherePredicate CG : Type} [DecidableEq Generic]", "str": "String",
+               "only": ["filter_wheres"], "only_enums": [], "only_structs": [], "type_vars": ["Generic"],
+               "extern_types": {"WherePredicate": "WherePredicate", "WhereClause": "List WherePredicate"},
+               "leading_binders": "(cgNew : List Generic → CG) (cgVisit : CG → WherePredicate → CG) (cgUsed : CG → List Generic)", "leading_args": "cgNew cgVisit cgUsed",
+               "extern_calls": {"CheckGenerics::new": "cgNew"}, "extern_methods": {"used": "cgUsed"},
+               "mut_visitor_methods": {"visit_where_predicate": "cgVisit"}, "newtype_fields": ["predicates"]},
     # the bridge to chain-custom types (C11): `IntoMsg::into_msg` and `IntoResponse::into_response`, trait methods on cosmwasm_std's
     # SubMsg / Response (declared in Sylvia/Model/RustExtern.lean); arms compiled under `#[cfg(feature = "..")]` become
     # `if feat ".." then <arm> else <the wildcard arm>`, so the regenerated function is the code under every feature set at once
@@ -202,7 +223,7 @@ class FnTr:
             self.fn = fn
         self.generics = [g[1] for g in fn["generics"]]
         if self.mod.profile.get("type_vars"):
-            fn = dict(fn, generics=[g for g in fn["generics"] if not (g[0] == "unsupported" and g[1].split(":")[0].strip() in self.mod.profile["type_vars"])])
+            fn = dict(fn, generics=[g for g in fn["generics"] if not (g[0] == "unsupported" and (g[1].startswith("'") or g[1].split(":")[0].strip() in self.mod.profile["type_vars"]))])
             self.fn = fn
             self.generics = [g[1] for g in fn["generics"]]
         for g in fn["generics"]:
@@ -224,6 +245,9 @@ class FnTr:
             self.declare(pat[1], self.mod.ty(ty))
             self.params.append(pat[1])
         self.ret = self.mod.ty(fn["ret"])
+        self.mut_self = bool(fn.get("mut_self")) and fn["ret"] == ["tunit"]
+        if self.mut_self:
+            self.ret = self.types["self"]
 
     # ------------------------------------------------------------------ helpers
     def declare(self, v, t):
@@ -292,6 +316,8 @@ class FnTr:
             if len(path) == 2 and path[0] in self.mod.enums:
                 return "." + path[1]
             raise Unsupported("path pattern %s" % path)
+        if k == "pts" and p[1] == ["Some"] and len(p[2]) == 1:
+            return "(some %s)" % self.pat(p[2][0])
         if k == "pts":
             path, subs = p[1], p[2]
             if len(path) > 2 and path[-2] in self.mod.enums and path[0] in ("std", "cosmwasm_std", "syn"):
@@ -360,6 +386,8 @@ class FnTr:
             val = e[1] if e[1] is not None else ["unit"]
             return self.ex(val, lambda v: [".ok %s" % v])
         if t == "field":
+            if e[2] in self.mod.profile.get("newtype_fields", []):
+                return self.ex(e[1], k)
             return self.ex(e[1], lambda b: k("%s.%s" % (b, e[2])))
         if t == "tuple":
             return self.args(e[1], lambda vs: k("(%s)" % ", ".join(vs)))
@@ -486,12 +514,24 @@ class FnTr:
                 return self.ex(e[1], lambda r: k("(toStr %s)" % r))
             if name in ("to_owned", "clone") and not e[3]:
                 return self.ex(e[1], k)
+            if name in ("as_ref", "copied", "cloned") and not e[3]:
+                return self.ex(e[1], k)
+            if name == "find" and len(e[3]) == 1 and e[3][0][0] == "closure" and len(e[3][0][1]) == 1:
+                cl = e[3][0]
+                return self.ex(e[1], lambda r: k("(List.find? (fun %s => %s) %s)" % (self.pat(cl[1][0]), self.pure(cl[2]), r)))
+            if name == "contains" and len(e[3]) == 1:
+                return self.ex(e[1], lambda r: self.ex(e[3][0], lambda v: k("(List.contains %s %s)" % (r, v))))
+            if name == "map" and len(e[3]) == 1 and e[3][0][0] == "closure" and len(e[3][0][1]) == 1 and self.mod.profile.get("mut_visitor_methods") is not None:
+                cl = e[3][0]
+                return self.ex(e[1], lambda r: k("(Option.map (fun %s => %s) %s)" % (self.pat(cl[1][0]), self.pure(cl[2]), r)))
             if name == "is_none" and not e[3]:
                 return self.ex(e[1], lambda r: k("(%s).isNone" % r))
             if name == "is_some" and not e[3]:
                 return self.ex(e[1], lambda r: k("(%s).isSome" % r))
             if name == "collect" and not e[3] and not ((e[4] if len(e) > 4 else None) or ""):
                 src = e[1]
+                while src[0] == "mcall" and src[2] in ("copied", "cloned") and not src[3]:
+                    src = src[1]
                 if src[0] == "mcall" and src[2] == "filter" and len(src[3]) == 1 and src[3][0][0] == "closure" and len(src[3][0][1]) == 1:
                     cl = src[3][0]
                     return self.ex(src[1], lambda xs: k("(List.filter (fun %s => %s) %s)" % (self.pat(cl[1][0]), self.pure(cl[2]), xs)))
@@ -617,8 +657,27 @@ class FnTr:
                 out += ind(karm(body))
         return out
 
+    def pure_block(self, stmts):
+        """a block of `let`s, calls of a `&mut self` method of a foreign visitor on a local, and a final expression, as one term"""
+        parts = []
+        for i, st in enumerate(stmts):
+            last = i == len(stmts) - 1
+            if st[0] == "slet" and st[1][0] == "pid" and st[2] is not None:
+                parts.append("let %s := %s;" % (lid(st[1][1]), self.pure(st[2])))
+            elif st[0] == "sexpr" and st[2] and st[1][0] == "mcall" and st[1][1][0] == "path" and len(st[1][1][1]) == 1 \
+                    and st[1][2] in self.mod.profile.get("mut_visitor_methods", {}):
+                x = lid(st[1][1][1][0])
+                parts.append("let %s := (%s %s);" % (x, " ".join([self.mod.profile["mut_visitor_methods"][st[1][2]], x]), " ".join(self.pure(a_) for a_ in st[1][3])))
+            elif st[0] == "sexpr" and last and not st[2]:
+                parts.append(self.pure(st[1]))
+            else:
+                raise Unsupported("statement in a closure body: %s" % json.dumps(st)[:80])
+        return "(%s)" % " ".join(parts)
+
     def pure(self, e):
         """lean term of an expression that has no effects (no indexing, no calls of translated functions)"""
+        if e[0] == "block":
+            return self.pure_block(e[1])
         out = []
         lines = self.ex(e, lambda v: (out.append(v), ["@"])[1])
         if lines != ["@"] or len(out) != 1:
@@ -784,6 +843,12 @@ class FnTr:
             return [".panic"]
         if t == "call":
             return self.ex(e, lambda v: rest(), hint="_")
+        if t == "mcall" and e[2] == "push" and len(e[3]) == 1 and e[1][0] == "field" and e[1][1] == ["path", ["self"]]:
+            fld = e[1][2]
+            return self.ex(e[3][0], lambda v: ["let self := { self with %s := self.%s ++ [%s] }" % (fld, fld, v)] + rest())
+        if t == "for" and self.mod.profile.get("skip_visit_recursion") and len(e[3]) == 1 and e[3][0][0] == "sexpr" and e[3][0][1][0] == "mcall" \
+                and e[3][0][1][1] == ["path", ["self"]] and e[3][0][1][2].startswith("visit_"):
+            return rest()       # syn's default recursion: the walker's business (see the profile)
         if t == "mcall" and e[2] == "push" and len(e[3]) == 1 and e[1][0] == "path" and len(e[1][1]) == 1:
             x = e[1][1][0]
             return self.ex(e[3][0], lambda v: ["let %s := %s ++ [%s]" % (x, x, v)] + rest())
@@ -956,7 +1021,10 @@ class FnTr:
     # ------------------------------------------------------------------ whole function
     def translate(self):
         body = self.fn["body"]
-        lines = self.block(body, None, kval=lambda v: [".ok %s" % v], kend=lambda: [".ok ()"])
+        if self.mut_self:
+            lines = self.block(body, None, kval=None, kend=lambda: [".ok self"])
+        else:
+            lines = self.block(body, None, kval=lambda v: [".ok %s" % v], kend=lambda: [".ok ()"])
         return self.param_lets + lines
 
 
@@ -1022,8 +1090,9 @@ class ModTr:
             if name not in tonly or name in missing:
                 continue
             params = [[["pid", "self"], tm["self_ty"]] if pp[0] == "self" else [pp, tt] for pp, tt in tm["params"]]
+            mut_self = any(pp[0] == "self" and pp[1] and pp[2] for pp, tt in tm["params"])
             tret = ["tpath", [tm["owner"]]] if tm["ret"] == ["tpath", ["Self"]] and tm["owner"] in self.structs else tm["ret"]
-            self.fns[name] = {"name": name, "generics": tm["generics"], "params": params, "ret": tret, "body": tm["body"], "owner": tm["owner"]}
+            self.fns[name] = {"name": name, "generics": tm["generics"], "params": params, "ret": tret, "body": tm["body"], "owner": tm["owner"], "mut_self": mut_self}
             notes = [x for x in tm["attrs"] if x]
             if notes:
                 self.method_notes[name] = notes
